@@ -1,0 +1,104 @@
+//! Vec-backed insertion-ordered set with the subset of the `linked_hash_set::LinkedHashSet`
+//! API that this crate uses.  Re-inserting an existing element moves it to the end (same as
+//! `LinkedHashSet::insert`).
+use std::borrow::Borrow;
+
+#[derive(Debug, Clone)]
+pub struct LinkedHashSet<T> {
+    items: Vec<T>,
+}
+
+impl<T> Default for LinkedHashSet<T> {
+    fn default() -> Self {
+        LinkedHashSet { items: Vec::new() }
+    }
+}
+
+impl<T> LinkedHashSet<T> {
+    pub fn new() -> Self {
+        LinkedHashSet { items: Vec::new() }
+    }
+    pub fn len(&self) -> usize {
+        self.items.len()
+    }
+    pub fn is_empty(&self) -> bool {
+        self.items.is_empty()
+    }
+    pub fn iter(&self) -> std::slice::Iter<'_, T> {
+        self.items.iter()
+    }
+}
+
+impl<T: PartialEq> LinkedHashSet<T> {
+    fn pos<Q: ?Sized + PartialEq>(&self, k: &Q) -> Option<usize>
+    where
+        T: Borrow<Q>,
+    {
+        let mut i = 0;
+        while i < self.items.len() {
+            if self.items[i].borrow() == k {
+                return Some(i);
+            }
+            i += 1;
+        }
+        None
+    }
+    pub fn contains<Q: ?Sized + PartialEq>(&self, k: &Q) -> bool
+    where
+        T: Borrow<Q>,
+    {
+        self.pos(k).is_some()
+    }
+    /// Returns true if the value was not present; an existing value is moved to the back.
+    pub fn insert(&mut self, v: T) -> bool {
+        match self.pos(&v) {
+            Some(i) => {
+                self.items.remove(i);
+                self.items.push(v);
+                false
+            }
+            None => {
+                self.items.push(v);
+                true
+            }
+        }
+    }
+    pub fn extend<I: IntoIterator<Item = T>>(&mut self, iter: I) {
+        for v in iter {
+            self.insert(v);
+        }
+    }
+}
+
+impl<T> IntoIterator for LinkedHashSet<T> {
+    type Item = T;
+    type IntoIter = std::vec::IntoIter<T>;
+    fn into_iter(self) -> Self::IntoIter {
+        self.items.into_iter()
+    }
+}
+impl<'a, T> IntoIterator for &'a LinkedHashSet<T> {
+    type Item = &'a T;
+    type IntoIter = std::slice::Iter<'a, T>;
+    fn into_iter(self) -> Self::IntoIter {
+        self.items.iter()
+    }
+}
+impl<T: PartialEq> FromIterator<T> for LinkedHashSet<T> {
+    fn from_iter<I: IntoIterator<Item = T>>(iter: I) -> Self {
+        let mut m = LinkedHashSet::new();
+        m.extend(iter);
+        m
+    }
+}
+impl<T: serde::Serialize> serde::Serialize for LinkedHashSet<T> {
+    fn serialize<S: serde::Serializer>(&self, s: S) -> Result<S::Ok, S::Error> {
+        s.collect_seq(self.items.iter())
+    }
+}
+impl<'de, T: serde::Deserialize<'de> + PartialEq> serde::Deserialize<'de> for LinkedHashSet<T> {
+    fn deserialize<D: serde::Deserializer<'de>>(d: D) -> Result<Self, D::Error> {
+        let v: Vec<T> = serde::Deserialize::deserialize(d)?;
+        Ok(v.into_iter().collect())
+    }
+}
